@@ -30,8 +30,7 @@ CONFIG = {
             'cells held, after an error, twice) and call Next / Recycle / BeforeFirst after it',
     'assumptions': _ASSUME + ['DCHECK is compiled out (as in every build without NDEBUG, see the note)'],
     'trusted_base': _TRUST,
-    'partial': ['C09_termination_statement (every call returns, Destroy returns: proved as C09_no_hang / C09_destroy_no_hang = '
-                'no reachable state in which a thread inside a call is stuck; the well-founded progress measure is not proved)'],
+    'partial': [],
 }
 
 MANIFEST = {
@@ -45,7 +44,8 @@ MANIFEST = {
     'design_ref': 'DESIGN.md section 7 C09, section 6 F3',
     'note': 'Finding C09-F1 (fixes/C09-1.diff): the pinned BeforeFirst checks the exception only before taking the lock; the '
             'model reads the presence of the re-check from the source (Gen item bfRecheck) and C09_no_hang needs it. '
-            'Termination is proved as absence of stuck states only. A cell the producer holds when its callback throws is '
+            'Termination: no stuck state (C09_no_hang) + well-founded progress measure (C09_termination, C09_all_calls_return); '
+            'spurious wake-ups are not counted as progress. A cell the producer holds when its callback throws is '
             'leaked by the C++ (ghost list `lost`); not part of the property.',
     'technique': 'Lean 4 proof (inductive invariants of a transition system) + refutation witness + source-to-Lean translator + '
                  'controlled-scheduler differential correspondence',
